@@ -164,7 +164,13 @@ def generate(rng, tier):
                                                                                                        "num": 2.0, "pick": -2 if full else -1}})
         else:
             ops.append({"op": "inplace", "h": h, "i": rng.randrange(64), "sym": rng.choice("+-*/"), "rhs": gen_rhs(rng, n)})
-    return {"n": n, "ops": ops}
+    case = {"n": n, "ops": ops}
+    if rng.random() < 0.2:
+        # a scalar (0-d) Array or Vector: copies by every route are independent in both directions
+        case["scalar"] = {"val": float(rng.choice([4, 3, 0.5, -2, 7])), "unit": rng.choice(["s", "m", "", "g"]), "kind": rng.choice(["arr", "arr", "vec"]),
+                          "route": rng.choice(["copy", "copy.copy", "deepcopy", "dg-deepcopy", "ds-deepcopy"]), "side": rng.choice(["copy", "orig"]),
+                          "sym": rng.choice("+-*/"), "num": float(rng.choice([2, 4, 0.5, 3]))}
+    return case
 
 
 def describe(case):
@@ -209,6 +215,57 @@ class Graph:
         return [o] if t == "arr" else list(self.vec[o]["comps"])
 
 
+def scalar_scenario(sc, osy, V, stats):
+    """copy()/copy.copy/deepcopy of a 0-d Array or Vector (alone, or as a member of a deep-copied Datagroup/Dataset), then an
+    in-place update on one side: the other side keeps value and unit; the updated object keeps its identity."""
+    op = {"op": "scalar", "scalar": sc}
+    stats.inc("probe.scalar_copy_scenario=" + sc["route"])
+    try:
+        mk = (lambda: osy.Array(values=sc["val"], unit=sc["unit"])) if sc["kind"] == "arr" else (lambda: osy.Vector(sc["val"], 2 * sc["val"], unit=sc["unit"]))
+        x = mk()
+        r = sc["route"]
+        if r == "copy":
+            c = x.copy()
+        elif r == "copy.copy":
+            c = _copy.copy(x)
+        elif r == "deepcopy":
+            c = _copy.deepcopy(x)
+        else:
+            dg = osy.Datagroup()
+            dg["a"] = x
+            x = dg["a"]
+            if r == "dg-deepcopy":
+                c = _copy.deepcopy(dg)["a"]
+            else:
+                ds = osy.Dataset()
+                ds["g"] = dg
+                c = _copy.deepcopy(ds)["g"]["a"]
+        if c is x:
+            V(0, op, "copy-is-original", {})
+            return
+        upd, other = (c, x) if sc["side"] == "copy" else (x, c)
+        rhs = sc["num"] if sc["sym"] in "*/" else osy.Array(values=sc["num"], unit=sc["unit"])
+        before_other = [float(np.asarray(a.values)) for a in (core.vcomps(other) if sc["kind"] == "vec" else [other])]
+        res_ = OPS[sc["sym"]](upd, rhs)
+        if sc["kind"] == "arr" and res_ is not upd:
+            V(0, op, "identity", {"inplace_returned_new_array": True})
+            return
+        fn = {"+": np.add, "-": np.subtract, "*": np.multiply, "/": np.divide}[sc["sym"]]
+        base = [sc["val"]] if sc["kind"] == "arr" else [sc["val"], 2 * sc["val"]]
+        got_upd = [float(np.asarray(a.values)) for a in (core.vcomps(res_) if sc["kind"] == "vec" else [res_])]
+        want_upd = [float(fn(b, sc["num"])) for b in base]
+        if not np.allclose(got_upd, want_upd, rtol=1e-12, atol=0):
+            V(0, op, "inplace-value", {"got": got_upd, "want": want_upd})
+            return
+        after_other = [float(np.asarray(a.values)) for a in (core.vcomps(other) if sc["kind"] == "vec" else [other])]
+        if after_other != before_other or after_other != base or other.unit != osy.units(sc["unit"]):
+            V(0, op, "copy-not-independent", {"other_side_now": after_other, "was": before_other, "unit": str(other.unit)})
+    except HarnessError:
+        raise
+    except Exception as e:
+        V(0, op, "exception", {"error": f"{type(e).__name__}: {e}"[:300]})
+
+
 def execute(case, stats):
     import osyris as osy
     from pint.errors import DimensionalityError
@@ -228,6 +285,12 @@ def execute(case, stats):
 
     def V(step, op, clause, detail):
         viol.append({"class": "aliasing-contract", "clause": clause, "key": {"op": op["op"], "clause": clause}, "detail": dict(detail, step=step, op=op)})
+
+    if case.get("scalar"):
+        scalar_scenario(case["scalar"], osy, V, stats)
+        if viol:
+            res["signature"] = core.digest(case)[:20]
+            return res
 
     def rtol_of(dtype):
         return 1e-6 if np.dtype(dtype).itemsize == 4 and np.dtype(dtype).kind == "f" else 1e-12
@@ -701,10 +764,15 @@ def execute(case, stats):
 
 
 def measure(case):
-    return (len(case["ops"]), case["n"], len(core.dumps(case["ops"])))
+    return (len(case["ops"]), int(bool(case.get("scalar"))), case["n"], len(core.dumps(case["ops"])))
 
 
 def reductions(case, viol):
+    if case.get("scalar"):
+        c = dict(case)
+        del c["scalar"]
+        yield c
+        yield dict(case, ops=[])
     yield from list_reductions(case, "ops")
     if case["n"] > 2:
         yield dict(case, n=2)
